@@ -619,8 +619,21 @@ def searchsorted_row_lookup(ctx, rule, f, rows, node, boundary_attr="starts", ke
         kw = dict(c.a[2])
         side = kw.get("side", c.a[1][2] if len(c.a[1]) > 2 else None)
         b = c.a[1][0] if c.a[1] else None
-        if side is None or is_const(side, "left"):
+        # integer compensation:  #{B <= p} == #{B < p + 1} == #{B - 1 < p}
+        shift = 0
+        needle = c.a[1][1] if len(c.a[1]) > 1 else kw.get("v")
+        if needle is not None and len(alts(needle)) == 1 and needle.k == "bin" and needle.a[0] == "+" and (is_const(needle.a[2], 1) or is_const(needle.a[1], 1)):
+            shift += 1
+        if b is not None and len(alts(b)) == 1 and b.k == "bin" and b.a[0] == "-" and is_const(b.a[2], 1):
+            shift += 1
+            b = b.a[1]
+        if (side is None or is_const(side, "left")) and shift == 1:
+            ok = True if (b is not None and _is_attr(b, boundary_attr)) else (False if b is not None and (_is_attr(b, "ends") or _is_attr(b, "lengths")) else None)
+            detail = "searches %s with side='left' and a compensating shift by one" % (b,)
+        elif side is None or is_const(side, "left"):
             ok, detail = False, "side='left' (the default) maps a position that equals a boundary to the previous row"
+        elif is_const(side, "right") and shift:
+            ok, detail = False, "side='right' together with a shift by one counts the row after the containing one"
         elif is_const(side, "right"):
             ok = True if (b is not None and _is_attr(b, boundary_attr)) else (False if b is not None and (_is_attr(b, "ends") or _is_attr(b, "lengths")) else None)
             detail = "searches %s" % (b,)
